@@ -125,13 +125,19 @@ def _watch_internally(owner, fn, names, precedence):
     """
     owner.param._watch(fn, names, precedence=precedence)
     # (a partial, not a closure: it is deep-copied and pickled together
-    # with the expression fn belongs to)
-    owner.param._watch(partial(_retyped, fn), names, onlychanged=False, precedence=precedence)
+    # with the expression fn belongs to; it declines every other event
+    # before it is queued or delivered)
+    retyped = partial(_retyped, fn)
+    retyped._wants = _type_only
+    owner.param._watch(retyped, names, onlychanged=False, precedence=precedence)
+
+
+def _type_only(event):
+    return type(event.old) is not type(event.new) and Comparator.is_equal(event.old, event.new)
 
 
 def _retyped(fn, *events):
-    hidden = [event for event in events
-              if type(event.old) is not type(event.new) and Comparator.is_equal(event.old, event.new)]
+    hidden = [event for event in events if _type_only(event)]
     if hidden:
         fn(*hidden)
 
